@@ -472,6 +472,12 @@ def discharge_one(ob, timeout_s=10.0, use_cvc5=True):
     if r == z3.sat:
         return {"verdict": "refuted", "backend": "z3", "time": time.time() - t0, "model": s.model()}
     reason = s.reason_unknown()
+    # a cheap look for a small counterexample first (genuine if found): broken code is then reported in seconds
+    # instead of after every prover has used up its budget
+    m = bounded_refute(ob, min(5.0, timeout_s), 2)
+    if m is not None:
+        return {"verdict": "refuted", "backend": "z3 (quantifiers expanded on ranges within [0,2))",
+                "time": time.time() - t0, "model": m}
     if use_cvc5 and os.path.exists(CVC5):
         try:
             r2 = run_cvc5(s.to_smt2(), timeout_s)
@@ -635,7 +641,7 @@ def discharge_all(obs, timeout_s, deadline=None):
         else:
             todo.append(i)
     ctx = mp.get_context("fork")
-    per_ob = 3 * timeout_s + 10
+    per_ob = 8 * timeout_s + 20     # z3, bounded look, cvc5, fresh context, two seeds, bounded refuter K=2,3
     while todo:
         if deadline is not None and time.time() > deadline:
             for i in todo:
